@@ -11,8 +11,6 @@ sys.path.insert(0, '/repo')
 from pydbml.classes import Column, EnumItem, Expression, Index, Note  # noqa: E402
 
 PID = 'C10'
-THEOREMS_PLANNED = []
-            'PyDBML.C10.rename_table_shows_everywhere_dbml']
 THEOREMS = []
 MODULES = []
 
